@@ -102,8 +102,13 @@ def run(tier):
     meta = {}
     nprog = 0
     nontrivial = set()
+    # development aid (never set by a registered command): VERIF_DEV_LAYERS=e runs only the named layers
+    dev = os.environ.get("VERIF_DEV_LAYERS")
+    on = lambda layer: (not dev) or layer in dev
+    if dev:
+        chk.cov["dev_layers_only"] = dev
     # ---- (a) generated programs of the integer fragment
-    for label, consts in JOBS[tier]:
+    for label, consts in (JOBS[tier] if on("a") else []):
         # delay times of zero samples are part of C01 (VM = WASM) although C02 says nothing about them
         reps = langpipe.generate(chk, label, dict({"DelayTimes": '"withzero"'}, **consts),
                                  timeout=3000)
@@ -135,7 +140,7 @@ def run(tier):
 
     # ---- (b) shipped sources and their mutants
     n = NSAMPLES[tier]
-    files = shipped_files()
+    files = shipped_files() if on("b") else []
     reqs = []
     pinned_files = {c.get("file") for c in pinned_cases() if c.get("file")}
     for f in files:
@@ -186,7 +191,7 @@ def run(tier):
              "440", "44100", "48000", "0.5", "0.25", "0.333333333333", "1000000", "4294967296", "9007199254740993",
              "0.00001", "0.000009", "12345.678", "0.99999", "1.00001", "2047.9", "2049", "4097", "32769"]
     lreqs = []
-    for i, l in enumerate(lits):
+    for i, l in enumerate(lits if on("c") else []):
         lreqs.append({"id": f"lit{i}", "src": f"fn dsp(){{ ({l}, now * {l} + {l}, 0 - {l}) }}\n", "n": 4,
                       "backends": ["vm", "wasm"], "sched": True})
     for req, out, crash in vlib.run_harness("run", lreqs, timeout_per_req=20):
@@ -222,7 +227,7 @@ def run(tier):
         e = f"{f}(x, y)" if f[0].isalpha() else f"(x {f} y)"
         breqs.append({"id": f"bin:{f}", "src": f"fn dsp(p:(float,float)){{\n  let (x, y) = p\n  ({e}, {e} + 0)\n}}\n", "n": len(pairs),
                       "backends": ["vm", "wasm"], "sched": True, "inputs": [[a, b] for a, b in pairs]})
-    for req, out, crash in vlib.run_harness("run", breqs, timeout_per_req=30):
+    for req, out, crash in vlib.run_harness("run", breqs if on("d") else [], timeout_per_req=30):
         nprog += 1
         key = vlib.canon_key(req["src"])
         if crash or out is None:
@@ -235,6 +240,32 @@ def run(tier):
         meta[rid] = (req["src"], {"src": req["src"], "inputs": req["inputs"]}, key)
         nontrivial.add(key)
     chk.cov["builtin_table"] = len(breqs)
+
+    # ---- (e) order of scheduled tasks: tasks whose effects do not commute (x = x * 2 + i), scheduled from global scope
+    #         in every order of deadlines - also several for the same sample, also after a task with a later deadline.
+    #         Which of two tasks due at the same sample runs first is left open by the scheduler's contract (C11), but
+    #         it must be the same on both runtimes: "with or without the scheduler".
+    import itertools
+    sreqs = []
+    times = (2, 3, 5)
+    combos = [c for k in (2, 3, 4) for c in itertools.product(times, repeat=k)]
+    if tier == "thorough":
+        combos += list(itertools.product(times, repeat=5)) + list(itertools.product((1, 2, 2.5, 2.75, 4), repeat=3))
+    for ci, combo in enumerate(combos if on("e") else []):
+        src = "let x = 1\n" + "".join(f"fn t{i}(){{\n  x = x * 2 + {i + 1}\n}}\n" for i in range(len(combo)))
+        src += "".join(f"t{i}@{t}\n" for i, t in enumerate(combo)) + "fn dsp(){\n  x\n}\n"
+        sreqs.append({"id": f"sched{ci}", "src": src, "n": 8, "backends": ["vm", "wasm"], "sched": True})
+    for req, out, crash in vlib.run_harness("run", sreqs, timeout_per_req=20):
+        nprog += 1
+        key = vlib.canon_key(req["src"])
+        if crash or out is None:
+            chk.violation(f"runtime process died on {req['src']}: {crash}", {"src": req["src"]}, key=key)
+            continue
+        rid = f"sched:{req['id']}"
+        records.append({"id": rid, "a": langpipe.side(out["vm"]), "b": langpipe.side(out["wasm"]), "cmpwords": False})
+        meta[rid] = (req["src"], {"src": req["src"]}, key)
+        nontrivial.add(key)
+    chk.cov["task_order_programs"] = len(sreqs)
 
     # ---- pinned findings (specific inputs)
     pins = pinned_cases()
